@@ -226,30 +226,54 @@ fn build_input(case: &Value) -> Result<Built, String> {
             let loc = r["loc"].as_str().unwrap_or("start_end");
             let v = lists.entry(from).or_default();
             let n = v.iter().filter(|l| !matches!(l, Location::BaseAddress { .. })).count() as u64;
-            let begin = 0x1000 + 0x100 * n;
-            let end = begin + 0x80;
+            // the address range of the entry: normal, or one of the shapes the reader's
+            // resolving iterator drops (the writer that builds .debug_loc refuses empty ranges)
+            let mask = if enc.address_size >= 8 { u64::MAX } else { (1u64 << (8 * enc.address_size)) - 1 };
+            let mut shape = r["shape"].as_str().unwrap_or("normal");
+            if enc.version <= 4 && shape == "empty" {
+                shape = "reversed";
+            }
+            let b0 = 0x1000 + 0x100 * n;
+            let (begin, end) = match shape {
+                "empty" => (b0, b0),
+                "reversed" => (b0 + 0x80, b0),
+                "tomb" | "tombbase" => (mask - 1, mask),
+                _ => (b0, b0 + 0x80),
+            };
+            let base = if shape == "tombbase" { mask - 1 } else { 0x100 };
+            // offsets relative to `base` that give (begin, end); after a tombstone base any offsets do
+            let (ob, oe) = if shape == "tombbase" { (0x10, 0x90) } else { (begin.wrapping_sub(base) & mask, end.wrapping_sub(base) & mask) };
             let se = |data| Location::StartEnd { begin: Address::Constant(begin), end: Address::Constant(end), data };
             if enc.version <= 4 {
                 // .debug_loc has one entry kind (address or offset pair); the writer reaches it three ways
                 let based = matches!(v.first(), Some(Location::BaseAddress { .. }));
+                let list_base = match v.first() {
+                    Some(Location::BaseAddress { address: Address::Constant(a) }) => *a,
+                    _ => base,
+                };
+                let rel = |x: u64| x.wrapping_sub(list_base) & mask;
                 match loc {
                     // once a list has a base address selection entry, every later entry is an offset pair
-                    _ if based => v.push(Location::OffsetPair { begin: begin - 0x100, end: end - 0x100, data }),
-                    "offset_pair" if n == 0 => {
-                        v.push(Location::BaseAddress { address: Address::Constant(0x100) });
-                        v.push(Location::OffsetPair { begin: begin - 0x100, end: end - 0x100, data });
+                    _ if based => {
+                        let (a, b) = if list_base >= mask - 1 { (0x10 + 0x100 * n, 0x90 + 0x100 * n) } else { (rel(begin), rel(end)) };
+                        v.push(Location::OffsetPair { begin: a, end: b, data })
                     }
-                    "start_length" | "startx_length" => v.push(Location::StartLength {
+                    "offset_pair" if n == 0 => {
+                        v.push(Location::BaseAddress { address: Address::Constant(base) });
+                        v.push(Location::OffsetPair { begin: ob, end: oe, data });
+                    }
+                    "start_length" | "startx_length" if shape == "normal" => v.push(Location::StartLength {
                         begin: Address::Constant(begin), length: 0x80, data }),
                     _ => v.push(se(data)),
                 }
             } else {
                 match loc {
                     "offset_pair" => {
-                        v.push(Location::BaseAddress { address: Address::Constant(0x100) });
-                        v.push(Location::OffsetPair { begin: begin - 0x100, end: end - 0x100, data });
+                        v.push(Location::BaseAddress { address: Address::Constant(base) });
+                        v.push(Location::OffsetPair { begin: ob, end: oe, data });
                     }
-                    "start_length" => v.push(Location::StartLength { begin: Address::Constant(begin), length: 0x80, data }),
+                    "start_length" => v.push(Location::StartLength {
+                        begin: Address::Constant(begin), length: end.wrapping_sub(begin) & mask, data }),
                     "default_location" => v.push(Location::DefaultLocation { data }),
                     // startx_endx / startx_length are re-encoded by hand after writing
                     "startx_endx" | "startx_length" => {
@@ -437,7 +461,7 @@ fn reencode_loclists(
                                     addr.write_udata(begin, enc.address_size).map_err(ws)?;
                                     out.write_u8(constants::DW_LLE_startx_length.0).map_err(ws)?;
                                     out.write_uleb128(i).map_err(ws)?;
-                                    out.write_uleb128(end - begin).map_err(ws)?;
+                                    out.write_uleb128(end.wrapping_sub(begin) & (if enc.address_size >= 8 { u64::MAX } else { (1u64 << (8 * enc.address_size)) - 1 })).map_err(ws)?;
                                 }
                                 _ => {
                                     out.write_u8(constants::DW_LLE_start_end.0).map_err(ws)?;
@@ -1151,7 +1175,8 @@ fn random_case(rng: &mut Rng, n: usize, kinds: &[&str]) -> Value {
         }
         if kind.starts_with("l_") {
             let loc = *rng.pick(&["offset_pair", "start_end", "start_length", "startx_endx", "startx_length", "default_location"]);
-            refs.push(json!({"from": from, "to": to, "kind": kind, "loc": loc}));
+            let shape = *rng.pick(&["normal", "normal", "empty", "reversed", "tomb", "tombbase"]);
+            refs.push(json!({"from": from, "to": to, "kind": kind, "loc": loc, "shape": shape}));
         } else {
             refs.push(json!({"from": from, "to": to, "kind": kind}));
         }
